@@ -336,3 +336,197 @@ Section Sound.
     eapply (C_reg Hc); [exact Hino|]. rewrite Hpo. eapply expand_sound; eassumption.
   Qed.
 End Sound.
+
+(* ---------------------------------------------------------------- the evaluator of Spec/PyImport.v is sound for the relations *)
+Definition top_no_star (l : list stmt) : bool :=
+  forallb (fun s => match s with SStar _ _ => false | _ => true end) l.
+
+Lemma scan_body_rev : forall n sv eb d body, top_no_star body = true ->
+  forall l2, scan_body n sv eb d (rev body ++ l2) =
+             match binder_of body n with Some b => eb b | None => scan_body n sv eb d l2 end.
+Proof.
+  intros n sv eb d. induction body as [|s rest IH]; intros Hns l2; [reflexivity|].
+  cbn [top_no_star forallb] in Hns. apply andb_true_iff in Hns. destruct Hns as [Hs Hrest].
+  cbn [rev]. rewrite <- app_assoc. cbn [app]. rewrite (IH Hrest). cbn [binder_of].
+  destruct (binder_of rest n); [reflexivity|].
+  destruct s; try discriminate; reflexivity.
+Qed.
+
+Lemma no_star_top : forall body, forallb no_star_stmt body = true -> top_no_star body = true.
+Proof.
+  intros body H. unfold top_no_star. rewrite forallb_forall in *. intros s Hs. specialize (H s Hs).
+  destruct s; try reflexivity. discriminate.
+Qed.
+
+Lemma from_binder_not_class : forall l m names n base b, from_binder l m names n <> Some (BClass base b).
+Proof.
+  induction names as [|[o a] names IH]; intros n base b H; [discriminate|].
+  cbn in H. destruct (from_binder l m names n) eqn:E.
+  - inversion H; subst. eapply IH; eassumption.
+  - destruct (N.eqb _ n); discriminate.
+Qed.
+
+Lemma binder_class_in : forall body c base b, binder_of body c = Some (BClass base b) -> In (SClass c base b) body.
+Proof.
+  induction body as [|s rest IH]; intros c base b H; [discriminate|].
+  cbn in H. destruct (binder_of rest c) eqn:E.
+  - inversion H; subst. right. apply IH. exact E.
+  - left. destruct s as [t a | l m ns | l m | c0 base0 b0 | f | x e]; cbn in H.
+    + destruct t; destruct a; try discriminate; destruct (N.eqb _ c); discriminate.
+    + exfalso. eapply from_binder_not_class; eassumption.
+    + discriminate.
+    + destruct (N.eqb c0 c) eqn:En; [|discriminate]. apply N.eqb_eq in En. inversion H; subst. reflexivity.
+    + destruct (N.eqb f c); discriminate.
+    + destruct (N.eqb x c); discriminate.
+Qed.
+
+Lemma descend_no_star : forall qual body b, forallb no_star_stmt body = true -> descend body qual = Some b ->
+  forallb no_star_stmt b = true.
+Proof.
+  induction qual as [|c qual IH]; intros body b Hns Hd.
+  - inversion Hd; subst. exact Hns.
+  - cbn in Hd. destruct (binder_of body c) as [[base cb| | | | |]|] eqn:E; try discriminate.
+    apply binder_class_in in E. rewrite forallb_forall in Hns. specialize (Hns _ E). cbn in Hns.
+    eapply IH; [|eassumption]. exact Hns.
+Qed.
+
+Section EvSound.
+  Variable P : project.
+  Hypothesis NS : no_star P = true.
+
+  Lemma scope_no_star : forall m qual body, scope_body P m qual = Some body -> top_no_star body = true.
+  Proof.
+    intros m qual body H. unfold scope_body in H. destruct (find_module P m) as [mm|] eqn:E; [|discriminate].
+    apply no_star_top. eapply descend_no_star; [|eassumption].
+    unfold no_star in NS. rewrite forallb_forall in NS. apply NS.
+    unfold find_module in E. apply find_some in E. apply E.
+  Qed.
+
+  Definition req_sem (r : req) (v : value) : Prop :=
+    match r with
+    | RNs m qual n => py_ns P m qual n v
+    | RAttr vo n => py_attr P vo n v
+    | RName m qual d => py_name P m qual d v
+    | REval m qual e => py_eval P m qual e v
+    end.
+
+  Lemma fold_attrs : forall f rest acc v,
+    (forall r v, ev P f r = Some v -> req_sem r v) ->
+    fold_left (fun acc p => match acc with Some v => ev P f (RAttr v p) | None => None end) rest (Some acc) = Some v ->
+    py_attrs P acc rest v.
+  Proof.
+    intros f rest. induction rest as [|p rest IH]; intros acc v Hev H.
+    - cbn in H. inversion H; subst. constructor.
+    - cbn in H. destruct (ev P f (RAttr acc p)) as [v1|] eqn:E.
+      + econstructor; [apply (Hev (RAttr acc p)); exact E | apply IH; assumption].
+      + exfalso. clear -H. induction rest as [|q rest IHr]; cbn in H; [discriminate | auto].
+  Qed.
+
+  Theorem ev_sound : forall fuel r v, ev P fuel r = Some v -> req_sem r v.
+  Proof.
+    induction fuel as [|f IH]; intros r v H; [discriminate|].
+    destruct r as [m qual n | vo n | m qual d | m qual e]; cbn [ev] in H; cbn [req_sem].
+    - (* namespace *)
+      destruct (find_module P m) as [mm|] eqn:Efm; [|discriminate].
+      destruct (scope_body P m qual) as [body|] eqn:Esb; [|discriminate].
+      rewrite <- (app_nil_r (rev body)) in H.
+      rewrite (scan_body_rev _ _ _ _ body (scope_no_star _ _ _ Esb)) in H.
+      destruct (binder_of body n) as [b|] eqn:Eb.
+      + eapply ns_bind; try eassumption.
+        destruct b as [base cb | | a | t | level modname orig | expr].
+        * inversion H; subst. constructor.
+        * inversion H; subst. constructor.
+        * destruct (is_module P [a]) eqn:Em; [|discriminate]. inversion H; subst. constructor. exact Em.
+        * destruct (is_module P t) eqn:Em; [|discriminate]. inversion H; subst. constructor. exact Em.
+        * destruct (resolve_relative m (m_pkg mm) level modname) as [X|] eqn:Er; [|discriminate].
+          destruct (path_eqb X m) eqn:Ex.
+          -- apply path_eqb_eq in Ex. subst X.
+             destruct (is_module P (m ++ [orig])) eqn:Em; [|discriminate]. inversion H; subst.
+             eapply pb_from_self; eassumption.
+          -- destruct (is_module P X) eqn:Em; [|discriminate].
+             eapply pb_from; try eassumption. apply (IH (RNs X [] orig)). exact H.
+        * constructor. apply (IH (REval m qual expr)). exact H.
+      + cbn [scan_body] in H. destruct qual as [|q0 qual]; [|discriminate].
+        destruct (m_pkg mm) eqn:Ep; [|discriminate]. cbn in H.
+        destruct (is_module P (m ++ [n])) eqn:Em; [|discriminate]. inversion H; subst.
+        eapply ns_submod; try eassumption.
+        unfold scope_body in Esb. rewrite Efm in Esb. cbn in Esb. inversion Esb; subst. exact Eb.
+    - (* attribute *)
+      destruct vo as [X | m qual].
+      + constructor. apply (IH (RNs X [] n)). exact H.
+      + destruct qual as [|q0 qual]; [discriminate|].
+        destruct (scope_body P m (q0 :: qual)) as [body|] eqn:Esb; [|discriminate].
+        destruct (binder_of body n) as [b|] eqn:Eb.
+        * apply pa_own; [discriminate|]. apply (IH (RNs m (q0 :: qual) n)). exact H.
+        * destruct (class_base P m (q0 :: qual)) as [bexpr|] eqn:Ecb; [|discriminate].
+          destruct (ev P f (REval m (removelast (q0 :: qual)) bexpr)) as [[X|m' q']|] eqn:Ee; try discriminate.
+          eapply pa_inh; try eassumption; [discriminate | |].
+          -- apply (IH (REval m (removelast (q0 :: qual)) bexpr)). exact Ee.
+          -- apply (IH (RAttr (VObj m' q') n)). exact H.
+    - (* name *)
+      destruct qual as [|q0 qual].
+      + apply pn_own. apply (IH (RNs m [] d)). exact H.
+      + destruct (scope_body P m (q0 :: qual)) as [body|] eqn:Esb; [|discriminate].
+        destruct (binder_of body d) as [b|] eqn:Eb.
+        * apply pn_own. apply (IH (RNs m (q0 :: qual) d)). exact H.
+        * eapply pn_global; try eassumption; [discriminate|]. apply (IH (RNs m [] d)). exact H.
+    - (* dotted expression *)
+      destruct e as [|d rest]; [discriminate|].
+      destruct (ev P f (RName m qual d)) as [v0|] eqn:En; [|discriminate].
+      econstructor; [apply (IH (RName m qual d)); exact En|].
+      eapply fold_attrs; [exact IH | exact H].
+  Qed.
+End EvSound.
+
+(* absolute names through the evaluator *)
+Definition ev_abs (P : project) (fuel : nat) (q : path) : option value :=
+  match q with
+  | [] => None
+  | a :: rest =>
+    if is_module P [a]
+    then fold_left (fun acc p => match acc with Some v => ev P fuel (RAttr v p) | None => None end) rest (Some (VMod [a]))
+    else None
+  end.
+
+Lemma ev_abs_sound : forall P fuel q v, no_star P = true -> ev_abs P fuel q = Some v -> py_abs P q v.
+Proof.
+  intros P fuel q v NS H. destruct q as [|a rest]; [discriminate|]. cbn in H.
+  destruct (is_module P [a]) eqn:E; [|discriminate]. cbn. split; [exact E|].
+  eapply fold_attrs; [|exact H]. intros r v0 Hr. eapply ev_sound; eassumption.
+Qed.
+
+(* ---------------------------------------------------------------- names that always resolve *)
+Lemma direct_import_resolves : forall st ctx k q o,
+  child st ctx k = None -> assoc k (o_amap ctx) = Some q -> obj_for st q = Some o ->
+  resolve_name st ctx [k] = Some o.
+Proof.
+  intros st ctx k q o Hc Ha Ho. unfold resolve_name, expand_name. cbn [expand_from].
+  unfold l2f. assert (Hl : forall f, local_to_full f st ctx k = q).
+  { intro f. destruct f; cbn; rewrite Hc, Ha; reflexivity. }
+  rewrite Hl. cbn [negb andb]. rewrite andb_false_r. cbn. exact Ho.
+Qed.
+
+Lemma module_alias_resolves : forall st ctx k X mo n o,
+  child st ctx k = None -> assoc k (o_amap ctx) = Some X -> obj_for st X = Some mo -> X <> [] ->
+  (child st mo n = Some o \/
+   (child st mo n = None /\ exists q, assoc n (o_amap mo) = Some q /\ path_eqb q [n] = false /\ obj_for st q = Some o)) ->
+  resolve_name st ctx [k; n] = Some o.
+Proof.
+  intros st ctx k X mo n o Hc Ha Hmo Hne Hn. unfold resolve_name, expand_name. cbn [expand_from].
+  assert (Hl : l2f st ctx k = X).
+  { unfold l2f. destruct (length (o_path ctx)); cbn; rewrite Hc, Ha; reflexivity. }
+  rewrite Hl. cbn [negb andb]. rewrite andb_false_r. cbn [andb]. rewrite Hmo.
+  pose proof (obj_for_some _ _ _ Hmo) as [_ Hpm].
+  destruct Hn as [Hch | [Hch [q [Hq [Hqn Hoq]]]]].
+  - assert (Hl2 : l2f st mo n = o_path o).
+    { unfold l2f. destruct (length (o_path mo)); cbn; rewrite Hch; reflexivity. }
+    rewrite Hl2. unfold child in Hch. pose proof (obj_for_some _ _ _ Hch) as [_ Hpo].
+    assert (Hns : path_eqb (o_path o) [n] = false).
+    { rewrite Hpo. destruct (path_eqb (o_path mo ++ [n]) [n]) eqn:E; [|reflexivity].
+      apply path_eqb_eq in E. apply (f_equal (@length _)) in E. rewrite app_length in E. cbn in E.
+      rewrite Hpm in E. destruct X; [congruence | cbn in E; lia]. }
+    rewrite Hns. cbn. rewrite Hpo. exact Hch.
+  - assert (Hl2 : l2f st mo n = q).
+    { unfold l2f. destruct (length (o_path mo)); cbn; rewrite Hch, Hq; reflexivity. }
+    rewrite Hl2, Hqn. cbn. exact Hoq.
+Qed.
